@@ -314,7 +314,9 @@ class DeckMemoryManager(MemoryElement):
 
             tmp_cb = self._write_failed_cb
             self._clear_write_cb()
-            tmp_cb(addr - self._write_base_address)
+            # The failure callback is optional
+            if tmp_cb is not None:
+                tmp_cb(addr - self._write_base_address)
 
     def _clear_write_cb(self):
         self._write_complete_cb = None
